@@ -76,6 +76,30 @@ static MatL gen_hess(const std::string& kind, int n, Rng& r, bool tridiag)
             H(i, i - 1) = std::pow(10.0L, -5.0L - 3.0L * r.uni()) * (r.below(2) ? 1 : -1);
         }
     }
+    if (kind == "defective")
+    {
+        // 2x2 diagonal blocks with an exactly zero discriminant (repeated, defective real eigenvalue) in integer data:
+        // [2 1; -1 0] (eigenvalue 1 twice) and the lower Jordan block [1 0; 1 1]; blocks isolated by exact zero subdiagonals
+        H.setZero();
+        for (int i = 0; i + 1 < n; i += 2)
+        {
+            if (r.below(2))
+            {
+                H(i, i) = 2; H(i, i + 1) = 1; H(i + 1, i) = -1; H(i + 1, i + 1) = 0;
+            }
+            else
+            {
+                H(i, i) = 1; H(i, i + 1) = 0; H(i + 1, i) = 1; H(i + 1, i + 1) = 1;
+            }
+            for (int j = i + 2; j < n; j++)
+            {
+                H(i, j) = (LD)(r.below(3) - 1);
+                H(i + 1, j) = (LD)(r.below(3) - 1);
+            }
+        }
+        if (n % 2)
+            H(n - 1, n - 1) = 3;
+    }
     if (kind == "companion")
     {
         H.setZero();
@@ -98,7 +122,7 @@ static MatL gen_hess(const std::string& kind, int n, Rng& r, bool tridiag)
     return H;
 }
 
-static const char* KINDS[11] = {"rand", "integer", "graded", "deflated", "tiny", "ratio", "perm", "jordan", "companion", "zero", "repeated"};
+static const char* KINDS[12] = {"rand", "integer", "graded", "deflated", "tiny", "ratio", "perm", "jordan", "companion", "zero", "repeated", "defective"};
 
 // ---- C08 ----------------------------------------------------------------------------------------------------------
 template <typename T, typename QR>
@@ -250,7 +274,7 @@ static void qr_type(const Desc& d, int tycode)
     const int nmax = (int) d.i("nmax", 40);
     for (int c = 0; c < count; c++)
     {
-        const std::string kind = KINDS[c % 11];
+        const std::string kind = KINDS[c % 12];
         int n = 2 + r.below(nmax - 1);
         if (c % 7 == 0)
             n = 2 + r.below(4);
@@ -316,7 +340,7 @@ static void eig_type(const Desc& d, int tycode)
     const int nmax = (int) d.i("nmax", 64);
     for (int c = 0; c < count; c++)
     {
-        const std::string kind = KINDS[c % 11];
+        const std::string kind = KINDS[c % 12];
         if (kind == "tiny" && tycode == 1)
             continue;
         int n = 2 + r.below(nmax - 1);
